@@ -65,6 +65,8 @@ func panicKind(msg string) string {
 		return "type-assertion-panic"
 	case strings.Contains(msg, "assignment to entry in nil map"):
 		return "nil-map-write-panic"
+	case strings.HasPrefix(msg, "unknown field "):
+		return "unknown-field-panic"
 	case strings.Contains(msg, "concurrent write to websocket connection"):
 		return "concurrent-write-panic"
 	case strings.Contains(msg, "reflect: call of"):
@@ -83,6 +85,9 @@ type rig struct {
 	srv  *handler.Server // handschema, all transports
 	up   *upSchema
 	ups  map[[2]int64]*handler.Server // upload schema servers by (MaxUploadSize, MaxMemory)
+	// override, when set, is the server every request goes to (part f builds a fresh,
+	// stateful server per request sequence)
+	override *handler.Server
 }
 
 func addTransports(srv *handler.Server, maxUpload, maxMem int64) {
@@ -253,10 +258,15 @@ func (r *rig) run(c *HTTPCase, checkTmp bool) Obs {
 		return o
 	}
 	srv := r.srv
-	if c.Up {
+	if r.override != nil {
+		srv = r.override
+	} else if c.Up {
 		srv = r.upServer(c.MaxUpload, c.MaxMem)
 		r.up.Reset()
 	} else {
+		r.hs.Log.Reset()
+	}
+	if r.override != nil {
 		r.hs.Log.Reset()
 	}
 	r.hook.take()
@@ -516,6 +526,15 @@ func judge(c *HTTPCase, o *Obs) []Failure {
 		}
 		if ran {
 			add("resolver-ran", "malformed input reached execution: %v", o.Events)
+		}
+	case "error-any-status":
+		// a GraphQL-level refusal whose HTTP status the statement does not define (persisted-query
+		// protocol errors are answered 200 by design)
+		if !first.HasErrors || first.HasData {
+			add("accepted-malformed", "invalid request was answered without an error: %s", clip(o.Body, 160))
+		}
+		if ran {
+			add("resolver-ran", "invalid request reached execution: %v", o.Events)
 		}
 	case "refused-size":
 		if !first.HasErrors || first.HasData {
